@@ -873,7 +873,7 @@ Lemma env_vanished : env f_rfc7162_x_resp_vanished = Some def_rfc7162_x_resp_van
 
 Definition seq_item_g : G :=
   Alt [(Ref f_core_x_sequence_range DSame);
-       (Map (mk_action (PVar "n") (ACon "RangeInclusive" [AVar "n"; AVar "n"])) (Ref f_core_x_number DSame))].
+       (Map (mk_action (PVar "x") (ACon "RangeInclusive" [AVar "x"; AVar "x"])) (Ref f_core_x_number DSame))].
 
 (* after an item: not a digit and not a colon *)
 Definition item_follow (rest : list byte) : Prop :=
@@ -2207,7 +2207,7 @@ Qed.
 Lemma known_tables_agree : map (fun Kn : string * string => bs (fst Kn)) rfc_name_attrs = map fst known_name_attrs.
 Proof. reflexivity. Qed.
 
-Lemma act_name_attr a : act native_call (mk_action (PVar "s") (ACall "rfc3501::name_attribute#1" [AVar "s"])) (VBytes a)
+Lemma act_name_attr a : act native_call (mk_action (PVar "x") (ACall "rfc3501::name_attribute#1" [AVar "x"])) (VBytes a)
   = AVal (classify_name_attr_in known_name_attrs a).
 Proof. reflexivity. Qed.
 
@@ -2828,7 +2828,7 @@ Qed.
 
 Definition lro_inner : G := Map proj12 (Seq [(Leaf (LTakeWhile nom_is_space)); (SepList0 (Leaf (LTakeWhile1 nom_is_space)) (Ref f_core_x_astring_utf8 DSame))]).
 
-Lemma act_lro items : act native_call (mk_action (PVar "items") (ACall "rfc4314::list_rights_optional#1" [AVar "items"])) (VList (map VBytes items))
+Lemma act_lro items : act native_call (mk_action (PVar "x") (ACall "rfc4314::list_rights_optional#1" [AVar "x"])) (VList (map VBytes items))
   = AVal (VList (flat_map (fun v => rights_of (vbytes v)) (map VBytes items))).
 Proof. reflexivity. Qed.
 
@@ -2865,7 +2865,7 @@ Proof.
           * destruct (enc_ws1_head s' Hs') as (c & r & -> & Hc). cbn [app]. exact Hc.
       - intros rest _. rewrite app_nil_r. destruct (enc_astring_head t wt Ht) as (c & r & -> & Hc). cbn [app]. exact Hc. }
     reflexivity. }
-  change (act native_call (mk_action (PVar "items") (ACall "rfc4314::list_rights_optional#1" [AVar "items"])) (VList (map VBytes (t :: l)))
+  change (act native_call (mk_action (PVar "x") (ACall "rfc4314::list_rights_optional#1" [AVar "x"])) (VList (map VBytes (t :: l)))
           = AVal (VList (flat_map rights_val (t :: l)))).
   rewrite act_lro. rewrite (rights_flat _ Hall). reflexivity.
 Qed.
@@ -3143,7 +3143,7 @@ Proof.
 Qed.
 
 Definition md_pair_g : G :=
-  Map (mk_action (PTuple [PVar "key"%string; PWild; PVar "value"%string]) (ARec "Metadata"%string [("entry"%string, AVar "key"); ("value"%string, AVar "value")]))
+  Map (mk_action (PTuple [PVar "p0"%string; PWild; PVar "p2"%string]) (ARec "Metadata"%string [("entry"%string, AVar "p0"); ("value"%string, AVar "p2")]))
       (Seq [entry_str; (Leaf (LTag (bs " "))); md_value_g]).
 
 Lemma ok_md_pair p w d : enc_md_pair p w -> OK md_pair_g d w p any.
